@@ -32,8 +32,15 @@ def generate(ctx):
         annob = anno.render_genbank(genome, feats, rng) if suffix == "gb" else anno.render_gff(genome, feats)
         recs = []
         nontriv = False
-        for qi in range(rng.randint(1, 3)):
-            q = samgen.make_query_topa(rng, genome, "q%d" % qi)
+        equalw = rng.random() < 0.35      # several single-record queries whose insertions have the same total length at different places
+        ilen = rng.randint(1, 4)
+        for qi in range(rng.randint(2, 4) if equalw else rng.randint(1, 3)):
+            if equalw:
+                a = rng.randint(1, L - 2)
+                cig = [("M", a), ("I", ilen), ("M", L - a)] if rng.random() < 0.8 else [("M", L)]
+                q = [{"name": "q%d" % qi, "flag": 0, "pos": 0, "cigar": cig, "seq": ""}]
+            else:
+                q = samgen.make_query_topa(rng, genome, "q%d" % qi)
             # sam variants is specified on ordinary aligner output: keep N (skipped region) and P out of the CIGARs here
             for r in q:
                 r["cigar"] = [(o, l) for o, l in r["cigar"] if o not in "NP"] or [("M", 1)]
@@ -61,7 +68,7 @@ def generate(ctx):
             e = rng.randint(L // 2, L)
         go = {"id": cid, "op": "samvariants", "sam": cm.b64(samb), "ref": cm.b64(refb if from_file else b""), "anno": cm.b64(annob),
               "suffix": suffix, "ref_from_file": from_file, "start": s, "end": e, "append_snps": append, "aggregate": False,
-              "threads": rng.choice([1, 2, 4])}
+              "threads": 1 if equalw else rng.choice([1, 2, 4])}
         def coq(obs, recs=recs, s=s, e=e, append=append):
             ex = obs.get("extra") or {}
             return "(%s, %s, %s, %s, (false, %s), ((%d)%%Z, (%d)%%Z), (0, 0%%Z, 0%%Z), %s)" % (
